@@ -77,6 +77,17 @@ def environment(rnd):
                 Assign(V('c'), Bin('+', V('c'), I(1))),
                 If(Bin('>', fcall('clobber', v=V('c')), P('limit')), [Ret(V('c'))])]),
             Ret(Un('-', I(1)))]},
+        # locals named like the parameters (and a parameter named like a constant): separate namespaces
+        'shadow': {'params': ['n', 'limit'], 'ret': 'integer', 'ptypes': {'n': 'integer', 'limit': 'integer'}, 'body': [
+            Assign(V('n'), Bin('*', P('n'), I(2))),
+            Assign(V('limit'), I(0)),
+            While(Bin('<', V('limit'), P('limit')), [Assign(V('limit'), Bin('+', V('limit'), I(1)))]),
+            If(Bin('>', P('n'), I(k3)), [Assign(V('n'), Bin('+', V('n'), fcall('shadow', n=Bin('-', P('n'), I(2)), limit=I(1))))]),
+            Ret(Bin('+', Bin('+', Bin('*', V('n'), I(3)), Bin('*', P('n'), I(2))), V('limit')))]},
+        'lim': {'params': ['LIMIT', 's'], 'ret': 'integer', 'ptypes': {'LIMIT': 'integer', 's': 'string'}, 'body': [
+            Assign(V('s'), Str('go')),
+            If(Bin('==', P('s'), V('s')), [Ret(Bin('+', Bin('*', V('LIMIT'), I(10)), P('LIMIT')))]),
+            Ret(Un('-', P('LIMIT')))]},
     }
     ops = {
         'A': {
@@ -87,6 +98,13 @@ def environment(rnd):
                 Assign(V('x'), Bin('*', Field(SELF, 'N'), P('k'))),
                 Assign(Field(SELF, 'N'), Bin('+', Field(SELF, 'N'), I(1))),
                 Ret(Bin('+', V('x'), fcall('fact', n=I(1))))]},
+            'sop': {'inst': True, 'params': ['k'], 'ret': 'integer', 'ptypes': {'k': 'integer'}, 'body': [
+                Assign(V('k'), Field(SELF, 'N')),
+                Assign(Field(SELF, 'N'), P('k')),
+                Ret(Bin('+', Bin('*', V('k'), I(10)), P('k')))]},
+            'csh': {'inst': False, 'params': ['x'], 'ret': 'integer', 'ptypes': {'x': 'integer'}, 'body': [
+                SelectFrom('many', 'x', 'A', Bin('>', Field({'t': 'selected'}, 'N'), P('x'))),
+                Ret(Bin('+', Bin('*', Un('cardinality', V('x')), I(10)), P('x')))]},
             'twice': {'inst': True, 'params': [], 'ret': 'integer', 'ptypes': {}, 'body': [
                 Ret(Bin('+', ocall(SELF, 'iop', k=I(1)), ocall(SELF, 'iop', k=I(2))))]},
         },
@@ -94,7 +112,10 @@ def environment(rnd):
     bridges = {
         'EE1': {'br': {'params': ['s', 'n'], 'ret': 'integer', 'ptypes': {'s': 'string', 'n': 'integer'}, 'body': [
             If(Bin('==', P('s'), Str('double')), [Ret(Bin('*', P('n'), I(2)))]),
-            Ret(fcall('clobber', v=P('n')))]}},
+            Ret(fcall('clobber', v=P('n')))]},
+                'bs': {'params': ['n'], 'ret': 'integer', 'ptypes': {'n': 'integer'}, 'body': [
+            Assign(V('n'), Bin('+', P('n'), I(1))),
+            Ret(Bin('+', Bin('*', V('n'), I(10)), P('n')))]}},
     }
     derived = {'A': {'Calc': {'ty': 'integer', 'body': [
         Assign(V('x'), Bin('+', Field(SELF, 'N'), I(k1))),
@@ -138,6 +159,15 @@ def scripts(rnd, env):
                 Assign(V('c'), I(0)),
                 While(Bin('<', fcall('clobber', v=V('c')), I(8)), [Assign(V('c'), Bin('+', V('c'), I(1)))]),
                 Ret(Bin('+', Bin('*', V('t'), I(100)), V('c')))])
+    out.append([Assign(V('n'), I(7)), Assign(V('limit'), I(8)),
+                Assign(V('r'), fcall('shadow', limit=I(rnd.randint(0, 4)), n=I(rnd.randint(0, 6)))),
+                Ret(Bin('+', Bin('*', V('r'), I(7)), Bin('+', Bin('*', V('n'), I(10)), V('limit'))))])
+    out.append([Ret(Bin('+', fcall('lim', LIMIT=I(rnd.randint(1, 5)), s=Str(rnd.choice(['go', 'stop']))),
+                        icall('EE1', 'bs', 'bridge', n=I(rnd.randint(0, 9)))))])
+    out.append([Create('a', 'A'), Assign(Field(V('a'), 'N'), I(rnd.randint(1, 5))), Create('b', 'A'), Assign(Field(V('b'), 'N'), I(rnd.randint(1, 9))),
+                Assign(V('v'), ocall(V('a'), 'sop', k=I(rnd.randint(0, 9)))),
+                Assign(V('w'), icall('A', 'csh', 'class', x=I(rnd.randint(0, 6)))),
+                Ret(Bin('+', Bin('*', V('v'), I(1000)), Bin('+', Bin('*', V('w'), I(10)), Field(V('a'), 'N'))))])
     return out
 
 
@@ -145,12 +175,14 @@ def python_calls(rnd, env):
     """invocations from Python: [(kind, namespace, name, literal arguments)]"""
     lit = lambda ty: I(rnd.randint(0, 6)) if ty == 'integer' else (Str(rnd.choice(['go', 'double', 'x'])) if ty == 'string' else B(rnd.random() < 0.5))
     calls = []
-    for name in ['fact', 'even', 'odd', 'mix', 'clobber', 'maybe', 'search']:
+    for name in ['fact', 'even', 'odd', 'mix', 'clobber', 'maybe', 'search', 'shadow', 'lim']:
         f = env['funcs'][name]
         ps = [(p, lit(f['ptypes'][p])) for p in f['params']]
         rnd.shuffle(ps)
         calls.append({'k': 'func', 'ns': '', 'n': name, 'ps': [{'n': p, 'e': e} for p, e in ps]})
     calls.append({'k': 'classop', 'ns': 'A', 'n': 'cop', 'ps': [{'n': 'x', 'e': lit('integer')}]})
+    calls.append({'k': 'classop', 'ns': 'A', 'n': 'csh', 'ps': [{'n': 'x', 'e': lit('integer')}]})
+    calls.append({'k': 'bridge', 'ns': 'EE1', 'n': 'bs', 'ps': [{'n': 'n', 'e': lit('integer')}]})
     calls.append({'k': 'bridge', 'ns': 'EE1', 'n': 'br', 'ps': [{'n': 'n', 'e': lit('integer')}, {'n': 's', 'e': lit('string')}]})
     for it in env['enums']['Color']:
         calls.append({'k': 'enum', 'ns': 'Color', 'n': it, 'ps': []})
